@@ -314,3 +314,17 @@ package trace
 //@   modifies metaReplacedAtomically
 //@   allow panic when true
 //@   ensures  returns-only-after-an-atomic-durable-replace: metaReplacedAtomically
+//
+//@ section C19
+//
+// TakeFileSnapshot (trace), the loop that hard-links the parts of the pinned snapshot (fragment contract: this loop only,
+// from an arbitrary state): the loop passes over a part without linking it only if the part is in memory, and it goes on
+// to the parts behind it (merge results are appended after in-memory parts, and the manifest lists every part).
+//@ func tsTable.TakeFileSnapshot#links-every-file-part
+//@   mode int
+//@   opt fragment writes hasDiskParts
+//@   opt only-stated
+//@   requires tst != nil && snapshot != nil
+//@   at-stmt "continue" requires only-in-memory-parts-are-skipped: pw.mp != nil
+//@   ensures  looked-at-every-part: forall k :: 0 <= k && k < len(snapshot.parts) && snapshot.parts[k].mp == nil ==> hasDiskParts
+//@   loop 0 invariant forall k :: 0 <= k && k < range_i && snapshot.parts[k].mp == nil ==> hasDiskParts
